@@ -194,6 +194,30 @@ _FOCUS = [
 
 def generate(rng, tier):
     specs = []
+    # the documented corner stones, always present
+    o2 = gen.rand_object(rng, pardim=1, dim=2, rational=False, pmax=3, max_interior=1, periodic_prob=0.0)
+    o2r = gen.rand_object(rng, pardim=2, dim=2, rational=True, pmax=3, max_interior=1, periodic_prob=0.0)
+    o3r = gen.rand_object(rng, pardim=1, dim=3, rational=True, pmax=3, max_interior=1, periodic_prob=0.5)
+    fixed = [
+        (o2, [{'op': 'rotate', 'ch': [3, 5], 'sh': [4, 5], 'normal': [0, 0, -1], 'norm': 1}]),
+        (o2r, [{'op': 'rotate', 'ch': [3, 5], 'sh': [4, 5], 'normal': [0, 0, -2], 'norm': 2}]),
+        (o2, [{'op': 'rotate', 'ch': [4, 5], 'sh': [3, 5], 'normal': [1, 0, 0], 'norm': 1}]),
+        (o2r, [{'op': 'rotate', 'ch': [4, 5], 'sh': [3, 5], 'normal': [0, -2, 0], 'norm': 2}]),
+        (o2, [{'op': 'div', 'a': 2.0, 'as': 'float'}]),
+        (o3r, [{'op': 'div', 'a': [2.0, 4.0, 0.5], 'as': 'ndarray'}]),
+        (o2, [{'op': 'radd', 'x': [1.0, 2.0], 'as': 'ndarray'}]),
+        (o2r, [{'op': 'rmul', 'a': 2.0, 'as': 'npfloat'}]),
+        (o2r, [{'op': 'translate', 'x': [1.0, -2.0, 0.5], 'as': 'tuple'}]),
+        (o3r, [{'op': 'scale', 'args': [2.0, -0.5, 3.0], 'as': 'list'}]),
+        (o3r, [{'op': 'mirror', 'normal': [2, 4, 4], 'norm': 6, 'as': 'tuple'}, {'op': 'mirror', 'normal': [1, 2, 2], 'norm': 3, 'as': 'list'}]),
+        (o3r, [{'op': 'set_dimension', 'n': 2}, {'op': 'set_dimension', 'n': 4}, {'op': 'rotate', 'ch': [3, 5], 'sh': [4, 5], 'normal': None, 'norm': 1}]),
+        (o2, [{'op': 'set_dimension', 'n': 1}, {'op': 'rotate', 'ch': [3, 5], 'sh': [4, 5], 'normal': None, 'norm': 1}]),
+        (o2, [{'op': 'mirror', 'normal': [1, 0, 0], 'norm': 1, 'as': 'list'}]),
+        (o2, [{'op': 'itruediv', 'a': 0.0, 'as': 'float'}]),
+        (o2, [{'op': 'force_rational'}, {'op': 'force_rational'}, {'op': 'set_dimension', 'n': 2}, {'op': 'project', 'plane': 'y'}]),
+    ]
+    for o, ops in fixed:
+        specs.append({'obj': o, 'ops': ops, 'params': _params(rng, o, 3)})
     nobj = 130 if tier == 'quick' else 1300
     for oi in range(nobj):
         pardim = [1, 2, 3, 1, 2, 1][oi % 6]
@@ -221,30 +245,6 @@ def generate(rng, tier):
                     break            # nothing follows an op whose outcome the property does not define
                 d = want[0]
             specs.append({'obj': o, 'ops': ops, 'params': _params(rng, o, npar)})
-    # the documented corner stones, always present
-    o2 = gen.rand_object(rng, pardim=1, dim=2, rational=False, pmax=3, max_interior=1, periodic_prob=0.0)
-    o2r = gen.rand_object(rng, pardim=2, dim=2, rational=True, pmax=3, max_interior=1, periodic_prob=0.0)
-    o3r = gen.rand_object(rng, pardim=1, dim=3, rational=True, pmax=3, max_interior=1, periodic_prob=0.5)
-    fixed = [
-        (o2, [{'op': 'rotate', 'ch': [3, 5], 'sh': [4, 5], 'normal': [0, 0, -1], 'norm': 1}]),
-        (o2r, [{'op': 'rotate', 'ch': [3, 5], 'sh': [4, 5], 'normal': [0, 0, -2], 'norm': 2}]),
-        (o2, [{'op': 'rotate', 'ch': [4, 5], 'sh': [3, 5], 'normal': [1, 0, 0], 'norm': 1}]),
-        (o2r, [{'op': 'rotate', 'ch': [4, 5], 'sh': [3, 5], 'normal': [0, -2, 0], 'norm': 2}]),
-        (o2, [{'op': 'div', 'a': 2.0, 'as': 'float'}]),
-        (o3r, [{'op': 'div', 'a': [2.0, 4.0, 0.5], 'as': 'ndarray'}]),
-        (o2, [{'op': 'radd', 'x': [1.0, 2.0], 'as': 'ndarray'}]),
-        (o2r, [{'op': 'rmul', 'a': 2.0, 'as': 'npfloat'}]),
-        (o2r, [{'op': 'translate', 'x': [1.0, -2.0, 0.5], 'as': 'tuple'}]),
-        (o3r, [{'op': 'scale', 'args': [2.0, -0.5, 3.0], 'as': 'list'}]),
-        (o3r, [{'op': 'mirror', 'normal': [2, 4, 4], 'norm': 6, 'as': 'tuple'}, {'op': 'mirror', 'normal': [1, 2, 2], 'norm': 3, 'as': 'list'}]),
-        (o3r, [{'op': 'set_dimension', 'n': 2}, {'op': 'set_dimension', 'n': 4}, {'op': 'rotate', 'ch': [3, 5], 'sh': [4, 5], 'normal': None, 'norm': 1}]),
-        (o2, [{'op': 'set_dimension', 'n': 1}, {'op': 'rotate', 'ch': [3, 5], 'sh': [4, 5], 'normal': None, 'norm': 1}]),
-        (o2, [{'op': 'mirror', 'normal': [1, 0, 0], 'norm': 1, 'as': 'list'}]),
-        (o2, [{'op': 'itruediv', 'a': 0.0, 'as': 'float'}]),
-        (o2, [{'op': 'force_rational'}, {'op': 'force_rational'}, {'op': 'set_dimension', 'n': 2}, {'op': 'project', 'plane': 'y'}]),
-    ]
-    for o, ops in fixed:
-        specs.append({'obj': o, 'ops': ops, 'params': _params(rng, o, 3)})
     return specs
 
 
